@@ -15,6 +15,8 @@
      entry_ok t (id,r) r is non-empty, id names a window of t, and r lies within that window. *)
 From Coq Require Import ZArith List Bool.
 From Tickit Require Import RectDefs WinRectSet WinDefs WinSpec WinHist WinExposeProofs WinFlushProofs WinLogDisjoint WinRectSetProofs WinC02Extra WinC02Exact WinC02Disjoint.
+From Tickit Require RBDefs RBSpec RBAbsLemmas RBFlushDefs RBTermSim.
+From Tickit Require Import WinRBView WinRBExpose WinEndToEnd WinEndToEndFinal.
 Import ListNotations.
 Local Open Scope Z_scope.
 
@@ -132,6 +134,70 @@ Theorem C02_lines : forall app progs, app_no_lines app -> forall cfg st tm st' t
 Proof. exact (@WinC02Exact.win_flush_lines). Qed.
 Print Assumptions C02_lines.
 
+
+(* ---- END TO END: window layer + concrete render buffer + its flush + terminal ----
+   (vocabulary and remaining hypotheses: see the section of the same name in Properties_C01.v.
+   [cwin_flush] = tickit_window_flush with the render-buffer calls run on the span grid of
+   RBDefs.v, flushed by RBFlushDefs.flush onto C04's terminal; [TR tm t0]: the terminal's texts
+   are the encoding [enc] of an abstract screen tm; [app_ok]: the application paints
+   characters of one column.)  ARBITRARY drawing programs -- text, erase, characters, LINES,
+   erase-rectangle, skip, clear at any coordinates --, every defect configuration. *)
+
+(* EXACT FORM: what every terminal cell holds after the concrete flush *)
+Theorem C02_end_to_end : forall app progs cfg st tm (t0 : RBFlushDefs.term) st' t1 lg,
+  app_ok app -> TR tm t0 ->
+  0 <= lines (root_selfrect (after_queue st)) <= t_lines tm ->
+  0 <= cols (root_selfrect (after_queue st)) <= t_cols tm ->
+  cwin_flush cfg (c_hp app progs) st t0 = RBDefs.Ok (st', t1, lg) ->
+  pairwise_disjoint (flush_rects cfg (after_queue st)) ->
+  forall y x, 0 <= y < RBFlushDefs.t_lines t1 -> 0 <= x < RBFlushDefs.t_cols t1 ->
+    RBFlushDefs.t_text (RBTermSim.tcellat t1 y x) =
+      if r_later st && r_nexp (after_queue st) &&
+         cell_inb (root_selfrect st') (y, x) && in_any (flush_rects cfg (after_queue st)) (y, x)
+      then match content (let '(w, pw) := owner_rel (r_tree st') (y, x) in
+                          prog_cell_in app (progs w) w (lines (root_selfrect st')) (cols (root_selfrect st')) pw None) with
+           | Some c => enc c
+           | None => RBFlushDefs.t_text (RBTermSim.tcellat t0 y x)
+           end
+      else RBFlushDefs.t_text (RBTermSim.tcellat t0 y x).
+Proof. exact end_to_end_c02_f. Qed.
+Print Assumptions C02_end_to_end.
+
+(* CONFINEMENT: a terminal cell whose text the concrete flush changed lies inside the screen
+   and inside a rectangle handed to the root; what it shows was drawn by the window that owns
+   the cell in the composition, at the cell's position relative to that window; and the
+   concrete buffer run did not fault and held that content in that cell *)
+Theorem C02_end_to_end_confined : forall app progs cfg st tm (t0 : RBFlushDefs.term) st' t1 lg,
+  app_ok app -> TR tm t0 ->
+  0 <= lines (root_selfrect (after_queue st)) <= t_lines tm ->
+  0 <= cols (root_selfrect (after_queue st)) <= t_cols tm ->
+  cwin_flush cfg (c_hp app progs) st t0 = RBDefs.Ok (st', t1, lg) ->
+  forall y x, 0 <= y < RBFlushDefs.t_lines t1 -> 0 <= x < RBFlushDefs.t_cols t1 ->
+    RBFlushDefs.t_text (RBTermSim.tcellat t1 y x) <> RBFlushDefs.t_text (RBTermSim.tcellat t0 y x) ->
+    exists R c w pw,
+      In (t_id (r_tree st'), R) lg /\ cell_in R (y, x) /\
+      cell_inb (root_selfrect st') (y, x) = true /\
+      rb_cells (flush_buffer cfg (prog_handler app progs) (after_queue st)) (y, x) = Some (c, w, pw) /\
+      RBFlushDefs.t_text (RBTermSim.tcellat t1 y x) = enc c /\
+      owner_rel (r_tree st') (y, x) = (w, pw) /\
+      exists s v,
+        RBDefs.run (RBDefs.rb_new (lines (root_selfrect (after_queue st))) (cols (root_selfrect (after_queue st))))
+            (flush_ops (c_hp app progs) (r_tree (after_queue st)) (flush_rects cfg (after_queue st))) = RBDefs.Ok (s, v) /\
+        crep (RBSpec.ac (RBAbsLemmas.gcell (RBSpec.ag (RBSpec.abs_rb s)) y x)) (Some c).
+Proof. exact end_to_end_c02_confined_f. Qed.
+Print Assumptions C02_end_to_end_confined.
+
+(* every operation the window layer performs on its abstract buffer is the step of the
+   render-buffer SPECIFICATION (RBSpec.astep) on a state in the simulation relation [Rrb]:
+   whole expose traversals and the render loop *)
+Theorem C02_buffer_is_spec : forall hnd hp, hsim hnd hp -> forall tree rects b A, Rrb b A ->
+  Rrb (flush_rb hnd tree rects b) (fst (RBSpec.arun A (flush_ops hp tree rects))).
+Proof. exact Rrb_flush_rb_f. Qed.
+Print Assumptions C02_buffer_is_spec.
+
+Theorem C02_programs_are_spec : forall app progs, app_ok app -> hsim (prog_handler app progs) (c_hp app progs).
+Proof. exact hsim_prog_f. Qed.
+Print Assumptions C02_programs_are_spec.
 
 Example C02_nonvacuous :
   exists st tm, let '(_, tm', lg) := win_flush no_defects (prog_handler app_base (fun _ => [DText (-1) (-2) 9; DPaint])) st tm in
